@@ -272,7 +272,7 @@ func shapedScenario(g *Gen, which int) Case {
 		// a mount made by hand below an import mountpoint and one ON that mountpoint (the shape
 		// of the binman suite's history): 17 = below first, then on: the second covers the first
 		// and what hangs below it, `umount` asks for the covered mountpoint first and is refused
-		// on every retry (before fix 05db66c; now it must succeed) until the covering mount is taken
+		// on every retry (before fix e546b99; now it must succeed) until the covering mount is taken
 		// away by hand; 18 = the control order, nothing is hidden, `umount` succeeds; 19 = the
 		// hidden shape inside a derived layer, unmounted with -all
 		imps := []string{"import proc /proc /proc", "import rbind " + VB + "/hostsrc /mnt/host"}
